@@ -60,6 +60,19 @@ int main()
             }
             std::cout << "ok\n";
          }
+         else if (op == "wide") {
+            // one more parameter list, with more parameters than a machine word has bits: p<n0> .. p<n0+N-1> at positions 0 .. N-1
+            int n = std::stoi(a);
+            impl::Mapping* m = lx.make_mapping(region, Mapping_level{1});
+            for (int i = 0; i < n; ++i) {
+               auto name = "p" + std::to_string(params.size());
+               auto spelling = "w" + std::to_string(i);
+               auto* p = m->param(lx.get_identifier(util::word_view(reinterpret_cast<const char8_t*>(spelling.data()), spelling.size())), lx.int_type());
+               token[p] = name;
+               params.push_back(p);
+            }
+            std::cout << "ok\n";
+         }
          else if (op == "vals") {
             int n = std::stoi(a);
             for (int j = 0; j < n; ++j) {
